@@ -1,11 +1,18 @@
+pub mod c08;
+pub mod c09;
 pub mod c13;
+pub mod c19;
 pub mod c20;
+pub mod table_common;
 
 use crate::engine::PropertySpec;
 
 pub fn spec(id: &str) -> Option<PropertySpec> {
     Some(match id {
+        "C08" => c08::spec(),
+        "C09" => c09::spec(),
         "C13" => c13::spec(),
+        "C19" => c19::spec(),
         "C20" => c20::spec(),
         _ => return None,
     })
